@@ -46,6 +46,11 @@ CHECKS = {
    text="ReaderStream.tla models the assembler and consumer goroutines and their two rendezvous channels; TLC checks prefix-delivery, EOF placement, no send-on-closed panic and deadlock freedom for all delivery histories in the bound x read sizes x Close at every consumer step, and demonstrates that the un-repaired Close() shape deadlocks; every terminal behaviour is replayed with two real goroutines on the real ReaderStream (also behind a real Assembler) and TLC validates every Read result, loss reports and termination.",
    design_ref="4/C20", technique="TLA+ concurrent model (TLC, deadlock check) + behaviour replay + TLC trace validation",
    note="Real deadlock = both goroutines still blocked 2 s after the schedule ended."),
+ "C19": dict(
+   category="exploration",
+   text="The corpus of C01 (fixtures x structural and layer-aware mutations x every registered first layer) is pushed through the three non-recovering paths (DecodeFromBytes on 97 DecodingLayer types, NewPacket with SkipDecodeRecovery, DecodingLayerParser with IgnorePanic); TLC validates every recorded outcome against the outcome alphabet of the specification (a decode step ends in ok or error; Panic/Hang/Crash have no transition). Decoder source files that already panic on the pinned tree are listed as known findings (file granularity); a panic in any other file, a hang or a fatal crash is a violation.",
+   design_ref="4/C19", technique="TLC trace validation of sampled real decodes against the specification's outcome alphabet",
+   note="Memory safety of ~110 pure functions is outside what a state-machine specification decides; inputs are sampled; 22 source files are masked by known findings."),
  "C18": dict(
    category="model_checking",
    text="SerializeBuffer.tla: TLC proves exhaustively (all op sequences to the bound) that the transcription of writer.go refines the abstract buffer; every exported behaviour is replayed on the real buffer and every real step is validated by TLC against the abstract layer (contents, returned-slice length, window position, layers).",
